@@ -257,6 +257,18 @@ pub fn mapped_local(r: MappedLocalTime<DateTime<Local>>) -> Value {
     }
 }
 
+/// The date-level route of `Local` (deprecated `Date<Local>` API, still public): the offset(s) of the date's local midnight,
+/// reported in the shape of a wall-clock lookup at that midnight.
+#[allow(deprecated)]
+pub fn mapped_date(midnight: i64, r: chrono::LocalResult<chrono::Date<Local>>) -> Value {
+    let o = |d: &chrono::Date<Local>| d.offset().fix().local_minus_utc();
+    match r {
+        chrono::LocalResult::None => json!({"k": "none", "o1": 0, "o2": 0, "u1": big(0), "u2": big(0)}),
+        chrono::LocalResult::Single(d) => json!({"k": "single", "o1": o(&d), "o2": 0, "u1": big((midnight - o(&d) as i64) as i128), "u2": big(0)}),
+        chrono::LocalResult::Ambiguous(a, b) => json!({"k": "amb", "o1": o(&a), "o2": o(&b), "u1": big((midnight - o(&a) as i64) as i128), "u2": big((midnight - o(&b) as i64) as i128)}),
+    }
+}
+
 // ------------------------------------------------------------------------------------------------
 // query sets (input selection only)
 #[derive(Default, Clone)]
@@ -384,6 +396,9 @@ pub fn public_events(tz_value: &str, m: &Model, q: &Queries) -> Vec<Value> {
         for &w in &q.walls {
             let Some(nd) = naive(w) else { continue };
             out.push(ev("plocal", json!({"L": pair(w), "cand": m.cand(w)}), || json!({"r": mapped_local(Local.from_local_datetime(&nd))})));
+            let mid = w - w.rem_euclid(86_400);
+            if let Some(md) = naive(mid) { #[allow(deprecated)]
+                out.push(ev("plocal", json!({"L": pair(mid), "cand": m.cand(mid), "via": "from_local_date"}), || json!({"r": mapped_date(mid, Local.from_local_date(&md.date()))}))); }
         }
         for &t in &q.trips {
             let Some(nd) = naive(t) else { continue };
@@ -598,6 +613,9 @@ fn rule_public_events(tz_value: &str, q: &Queries) -> Vec<Value> {
         for &w in &q.walls {
             let Some(nd) = naive(w) else { continue };
             out.push(ev("prlocal", json!({"L": pair(w)}), || json!({"r": mapped_local(Local.from_local_datetime(&nd))})));
+            let mid = w - w.rem_euclid(86_400);
+            if let Some(md) = naive(mid) { #[allow(deprecated)]
+                out.push(ev("prlocal", json!({"L": pair(mid), "via": "from_local_date"}), || json!({"r": mapped_date(mid, Local.from_local_date(&md.date()))}))); }
         }
         for &t in &q.trips {
             let Some(nd) = naive(t) else { continue };
